@@ -1922,6 +1922,54 @@ theorem detached_children (o : NodeObj) : o.detached.children = [] := rfl
 theorem detached_parents (o : NodeObj) : o.detached.parents = [] := rfl
 theorem detached_compBy (o : NodeObj) : o.detached.compBy = [] := rfl
 
+/-! ### an object that is already part of the graph is rejected (b653290) -/
+
+theorem addNodeObj_eq (s : St) (r : Nat) (id : Option Int) :
+    addNodeObj s r id =
+      if dget s.idIdx (s.nobj r).id = some r then .error .valueError else
+      if (dget s.idIdx (id.getD s.nextNode)).isSome then .error .valueError else
+      .ok { s with
+        nobj := fun x => if x = r then { s.nobj r with id := id.getD s.nextNode } else s.nobj x
+        nextNode := max (id.getD s.nextNode + 1) s.nextNode
+        nodes := s.nodes ++ [r]
+        idIdx := dset s.idIdx (id.getD s.nextNode) r
+        nameIdx := dset s.nameIdx (fullName { s.nobj r with id := id.getD s.nextNode }) r } := rfl
+
+/-- `add_node` of a node of the graph raises `ValueError`, whatever id is asked for -/
+theorem addNodeObj_member_rejected (s : St) (r : Nat) (id : Option Int) (h : Consistent s) (hr : r ∈ s.nodes) :
+    addNodeObj s r id = .error .valueError := by
+  rw [addNodeObj_eq, if_pos ((h.idx.id_exact _ r).2 ⟨hr, rfl⟩)]
+
+/-- `add_node` raises nothing but `ValueError` -/
+theorem addNodeObj_error (s : St) (r : Nat) (id : Option Int) (e : Err) (h : addNodeObj s r id = .error e) :
+    e = .valueError := by
+  rw [addNodeObj_eq] at h
+  split at h
+  · cases h; rfl
+  · split at h
+    · cases h; rfl
+    · cases h
+
+/-- `add_attacker` of an attacker of the graph raises `ValueError`, whatever id / node ids are given -/
+theorem addAttackerObj_member_rejected (s : St) (a : Nat) (id : Option Int) (e r : List Int) (h : Consistent s)
+    (ha : a ∈ s.attackers) : addAttackerObj s a id e r = .error .valueError := by
+  unfold addAttackerObj
+  rw [if_pos ((h.attIdx.id_exact _ a).2 ⟨ha, rfl⟩)]
+
+theorem applyOp_addNodeObj (s : St) (r : Nat) (id : Option Int) (h : Consistent s) :
+    applyOp s (.addNodeObj r id) = s := by
+  show (if r ∈ s.nodes then okOr s (addNodeObj s r id) else s) = s
+  split
+  · next hr => rw [addNodeObj_member_rejected s r id h hr]; rfl
+  · rfl
+
+theorem applyOp_addAttackerObj (s : St) (a : Nat) (id : Option Int) (e r : List Int) (h : Consistent s) :
+    applyOp s (.addAttackerObj a id e r) = s := by
+  show (if a ∈ s.attackers then okOr s (addAttackerObj s a id e r) else s) = s
+  split
+  · next ha => rw [addAttackerObj_member_rejected s a id e r h ha]; rfl
+  · rfl
+
 theorem applyOp_consistent (s : St) (op : Op) (h : Consistent s) : Consistent (applyOp s op) := by
   cases op with
   | addNode o id =>
@@ -1966,6 +2014,8 @@ theorem applyOp_consistent (s : St) (op : Op) (h : Consistent s) : Consistent (a
     | ok s' => exact attach_consistent' atts s s' h hr
   | setLabels lab => exact setLabels_consistent' s lab h
   | prune => exact prune_consistent' s h
+  | addNodeObj r id => rw [applyOp_addNodeObj s r id h]; exact h
+  | addAttackerObj a id e r => rw [applyOp_addAttackerObj s a id e r h]; exact h
 
 theorem applyOp_namesExact (s : St) (op : Op) (h : Consistent s) (hx : NamesExact s) (hop : op.nameFresh s) :
     NamesExact (applyOp s op) := by
@@ -2014,6 +2064,8 @@ theorem applyOp_namesExact (s : St) (op : Op) (h : Consistent s) (hx : NamesExac
     | ok s' => exact attach_namesExact atts s s' hx hr
   | setLabels lab => exact setLabels_namesExact s lab hx
   | prune => exact prune_namesExact s h hx
+  | addNodeObj r id => rw [applyOp_addNodeObj s r id h]; exact hx
+  | addAttackerObj a id e r => rw [applyOp_addAttackerObj s a id e r h]; exact hx
 
 theorem foldl_applyOp_consistent (ops : List Op) (s : St) (h : Consistent s) : Consistent (ops.foldl applyOp s) :=
   foldl_inv Consistent applyOp ops s (fun s op _ hs => applyOp_consistent s op hs) h
